@@ -63,11 +63,6 @@ def scgiOnHeaders (buf : Bytes) (sep : Nat) : Except Outcome Env :=
         | none => .error (.crash "strlen past the end of buffer_")
         | some env => .ok env
 
-def sockRead (want : Nat) (s : Segs) : Except Err (Bytes × Segs) :=
-  match readSome want s with
-  | none => .error .eof
-  | some r => .ok r
-
 /-- one SCGI connection: exactly one request, `keep_alive()` is `false` -/
 def scgiConn (lim : Limits) (segs : Segs) : List Outcome :=
   let (b16, segs1, ok) := readExact Gen.scgiFirstRead segs
